@@ -304,7 +304,8 @@ example : (runM current ar0 (init .mem)
     [(0, .set true true [k5]), (0, .get ["k"]), (0, .inc (.int .i64) "k" 1 none none none), (0, .del ["k"])]).2.2 = [] := by
   decide
 
-/-- the two witnesses of DESIGN §8, for the facts as extracted today (closed terms) -/
+/-- the two witnesses of DESIGN §8, for the facts of the pinned commit (`current`; closed terms).
+    The deadlock has since been repaired in the repository (`fix:` commit), the fact then reads `yes`. -/
 theorem current_sticky_witness :
     (runM current ar0 (init .mem) hSticky).1 = [.sts [.new], .sts [.upd]] ∧
     (runS ar0 [] hSticky).1 = [.sts [.new], .sts [.same]] := by decide
